@@ -81,15 +81,15 @@ theorem C10_complete_frames_delivered (b1 b2 : Bytes) (h3 : 3 ≤ b1.length)
     (by rw [List.take_append_of_le_length h3]; exact hd) strict quoted
   rwa [List.take_left'  rfl] at h
 
-/-- C11 parse side (liveness): the same on a raw non-seekable source whose first read delivers at
-    least three bytes: the statements of the frames that have arrived are yielded before any byte
-    that has not arrived is needed (the parser is a deterministic sequential reader: what it yields
-    before asking for byte |b1|+1 is what it yields from `b1` alone). -/
-theorem C11_parse_live (b1 b2 : Bytes) (n : Nat) (hn : 3 ≤ n) (h3 : 3 ≤ b1.length)
+/-- C11 parse side (liveness): the same on a raw non-seekable source under ANY read schedule: the
+    statements of the frames that have arrived are yielded before any byte that has not arrived is
+    needed (the parser is a deterministic sequential reader: what it yields before asking for byte
+    |b1|+1 is what it yields from `b1` alone). -/
+theorem C11_parse_live (b1 b2 : Bytes) (sched : List Nat) (h3 : 3 ≤ b1.length)
     (hd : delimitedHint (b1.take 3) = true) (strict quoted : Bool) :
-    (parseFlat (.rawNonSeekable n) b1 strict quoted).events <+:
-      (parseFlat (.rawNonSeekable n) (b1 ++ b2) strict quoted).events := by
-  rw [(C09_partial b1 n (.inl hn) strict quoted).1, (C09_partial (b1 ++ b2) n (.inl hn) strict quoted).1]
+    (parseFlat (.rawNonSeekable sched) b1 strict quoted).events <+:
+      (parseFlat (.rawNonSeekable sched) (b1 ++ b2) strict quoted).events := by
+  rw [(C09_schedule_independent b1 sched strict quoted).1, (C09_schedule_independent (b1 ++ b2) sched strict quoted).1]
   exact C10_complete_frames_delivered b1 b2 h3 hd strict quoted
 
 end Jelly
